@@ -281,7 +281,7 @@ func main() {
 	// ---- (iii) registry
 	for i := 0; i < *nReg; i++ {
 		r := root.Fork(uint64(7000000 + i))
-		tg := &TypeGen{r: r, MaxDepth: 1 + i%*maxDepth, PSecure: 0.1, PSecretName: 0.25, PUntaggedSecretName: []float64{0.03, 0.15, 0.4}[i%3], AllowArray: true}
+		tg := &TypeGen{r: r, MaxDepth: 1 + i%*maxDepth, PSecure: 0.1, PSecretName: 0.25, PUntaggedSecretName: []float64{0.03, 0.15, 0.4}[i%3], AllowArray: true, PUnexported: []float64{0, 0.15, 0.3, 0.15}[i%4]}
 		mk := func() (*TNode, bool) {
 			switch r.Intn(8) {
 			case 0:
@@ -314,6 +314,8 @@ func main() {
 	}
 	// registry: an untagged secret-looking field under every constructor path of length <= 2
 	regExhaustive(w)
+	// registry: hand-declared plugin types (embedded structs of unexported types, unexported fields, named types)
+	regStatic(w)
 }
 
 func wrapN(c K, inner *TNode) *TNode {
